@@ -1,5 +1,6 @@
 import BufrModel.Basic
 import BufrModel.TableTypes
+import BufrModel.Value
 /-
   BufrModel.Core — descriptor nodes, encodings and flags (`BufrDescriptor`,
   `BufrValueEncoding`, FLAG_* in bufr_desc.h; `BufrDataType` in bufr_tables.h).
@@ -47,17 +48,69 @@ def Flags.toNat (f : Flags) : Nat :=
 /-- bit test on option masks (`OP_*`, `DDO_*`) -/
 def hasFlag (flags f : Nat) : Bool := flags &&& f ≠ 0
 
-/-- `BufrDescriptor`.  `ival` is the integer view of the value (`bufr_value_get_int32`), only
-meaningful when `hasVal`; `-1` is "missing". -/
+/-- `BufrDescriptor` -/
 structure Node where
   desc : Nat
   flags : Flags := {}
   enc : Enc := {}
-  hasVal : Bool := false
-  ival : Int := -1
+  val : Val := .none           -- `value`
   af : List Nat := []          -- widths of the associated fields in force (`afd`)
+  afW : Nat := 0               -- `value->af->nbits` (0: the value carries no associated field)
+  afBits : Nat := 0            -- `value->af->bits`
   replRank : Nat := 0
 deriving DecidableEq, Repr, Inhabited
+
+/-- `value != NULL` -/
+def Node.hasVal (n : Node) : Bool := n.val.isSome
+/-- `bufr_value_get_int32(value)`: the integer view (`-1` = missing or no value) -/
+def Node.ival (n : Node) : Int := n.val.getInt32
+
+/-- `ValueType` a descriptor's encoding calls for (`bufr_encoding_to_valtype`) -/
+inductive VT | undefined | int32 | int64 | flt32 | flt64 | string
+deriving DecidableEq, Repr, Inhabited
+
+/-- `bufr_value_nbits(val)` for `val ≥ 0`: least `i ≥ 1` with `2^i - 1 > val` (64 at most) -/
+def valueNbitsF : Nat → Nat → Nat → Nat
+  | 0, i, _ => i
+  | f+1, i, v => if 2^i - 1 > v then i else valueNbitsF f (i+1) v
+
+def valueNbits (v : Nat) : Nat := valueNbitsF 64 1 v
+
+def valtypeOf (e : Enc) : VT :=
+  match e.type with
+  | .ccitt => .string
+  | .ieee => if e.nbits = 64 then .flt64 else .flt32
+  | .numeric =>
+    if e.scale = 0 ∧ e.ref ≥ 0 then
+      let rb : Int := if e.ref ≠ 0 then (valueNbits e.ref.toNat : Int) else 0
+      if e.nbits + rb ≤ 32 then .int32
+      else if e.nbits + rb ≤ 64 then .int64
+      else .flt64
+    else .flt64
+  | .codetable | .flagtable => if e.nbits ≤ 32 then .int32 else .int64
+  | .chngRef => .int32
+  | _ => .undefined
+
+/-- a fresh (missing) value of the type the encoding calls for: `bufr_create_value` followed, for
+strings, by `bufr_value_set_string(bv, NULL, nbits/8)` -/
+def freshVal (e : Enc) : Val :=
+  match valtypeOf e with
+  | .int32 => .i32 (-1)
+  | .int64 => .i64 (-1)
+  | .flt32 => .f32 (.fin SF.maxFloat)
+  | .flt64 => .f64 (.fin SF.maxDouble)
+  | .string => .str (List.replicate (e.nbits / 8).toNat 255)
+  | .undefined => .none
+
+def listSumN (l : List Nat) : Nat := l.foldl (· + ·) 0
+
+/-- `bufr_mkval_for_descriptor` when the node has no value yet (`bufr_sequence_to_array(…, 1)`),
+including `bufr_set_value_af`: the value gets an associated field when the node has definitions -/
+def mkvalNode (n : Node) : Node :=
+  if n.val.isSome then n
+  else
+    let v := freshVal n.enc
+    if v.isSome then { n with val := v, afW := listSumN n.af, afBits := 0 } else n
 
 def Node.skipped (n : Node) : Bool := n.flags.skipped
 def Node.expanded (n : Node) : Bool := n.flags.expanded
@@ -77,11 +130,5 @@ def mkNode (T : Tables) (d : Nat) : Node :=
 def missingIvalue (nbits : Int) : Nat :=
   if nbits ≤ 0 then 0 else if nbits ≥ 64 then 2^64 - 1 else 2^nbits.toNat - 1
 
-/-- `bufr_value_nbits(val)` for `val ≥ 0`: least `i ≥ 1` with `2^i - 1 > val` -/
-def valueNbitsF : Nat → Nat → Nat → Nat
-  | 0, i, _ => i
-  | f+1, i, v => if 2^i - 1 > v then i else valueNbitsF f (i+1) v
-
-def valueNbits (v : Nat) : Nat := valueNbitsF 64 1 v
 
 end Bufr
